@@ -12,7 +12,9 @@ LEVEL = "exploration"
 ALSO_UNDER_O = True  # a second, smaller run in an interpreter started with -O
 RULE = (
     "Same generator as C01 (incl. one case in four continued by 1-3 same-named edited variants of the schema and the "
-    "original again, all in one interpreter, the previous schema object dropped before the next is loaded). Oracle (a) bytes(serde.encode) == reference canonical encoder (independent "
+    "original again, all in one interpreter, the previous schema object dropped before the next is loaded; in-place "
+    "edits of the loaded schema object; calls expected to fail between the checked calls; a load/use/drop alternation "
+    "sub-run; a small repeat under python -O). Oracle (a) bytes(serde.encode) == reference canonical encoder (independent "
     "re-implementation, self-tested on the 26 project vectors at start-up), (b) serde.decode(reference bytes) "
     "== value, (c) the project vectors themselves through the Python codec in both directions, (d) four directed values whose "
     "string / array counts do not fit 8 or 16 bits (256, 65535, 65536, 70001). Non-trivial = "
